@@ -36,7 +36,7 @@ WellFormed ==
   \cup {Extended(id, n) : id \in Ids, n \in {"n1", "n2"}}
   \cup {Unbind(id) : id \in Ids}
 NotSupported ==
-     {Unsupported(op, id) : op \in {"compare", "moddn", "abandon", "app20", "app30"}, id \in {"i0", "i2"}}
+     {Unsupported(op, id) : op \in {"compare", "moddn", "abandon", "app20", "app30", "app256", "app258", "app512"}, id \in {"i0", "i2"}}
   \cup {Bind(id, v, "s1", "s2", <<>>) : id \in {"i1", "i3"}, v \in {"0", "2", "4", "i3"}}
 Requests == WellFormed \cup NotSupported
 
